@@ -20,6 +20,7 @@
 #include <unordered_set>
 #include <vector>
 #include <unistd.h>
+#include <ctime>
 #include <fcntl.h>
 #include <sys/mman.h>
 
@@ -434,11 +435,19 @@ int harness_main(int argc, char **argv, const Harness<Case> &h) {
                                  (unsigned long long)seed, cases, maxsize);
         setenv("RC_PARAMS", params.c_str(), 1);
         bool shrinking = false;
+        long shrinkEvals = 0;
+        time_t shrinkStart = 0;
         bool ok = rc::check(h.id, [&]() {
             Case c = h.draw();
+            if (shrinking) {
+                // bounded shrinking: past the budget every candidate "passes", so rapidcheck settles on the current minimum.
+                // (only the minimality of the reported case depends on this budget, never the verdict)
+                if (++shrinkEvals > 600 || time(nullptr) - shrinkStart > 90) return;
+            }
             bool good = run_one(h, c, !shrinking);
             if (s.cur_discard && good) RC_DISCARD("discard");
             if (!good) {
+                if (!shrinking) shrinkStart = time(nullptr);
                 shrinking = true;  // everything after the first failure is shrinking
                 lastFail = c;
                 lastSig = s.cur_sig;
